@@ -35,6 +35,9 @@ impl MultiYamlConverter {
 
     pub fn convert_list(&self, vals: &Vec<Rc<Val>>, mut w: &mut dyn Write) -> ConvertResult {
         for val in vals {
+            // Without the document start marker the documents run together
+            // into one (usually invalid) document.
+            writeln!(w, "---")?;
             self.0.write(val.as_ref(), &mut w)?;
         }
         Ok(())
